@@ -36,6 +36,7 @@ func checkC20(p *core.Program, r *core.Report) {
 		"(O20.4) the handler writes one status per request (C09 O9.1). Not decided: counting inside promhttp, gauge decrement on panics, scrape availability under load."
 	r.Rule("O20.1", "prover server serves the instrumented mux; metrics server serves HandlerFor(same registry) at /metrics; two distinct servers, both started")
 	r.Rule("O20.2", "the /prove handler is registered only through the instrumented mux; nothing on the default mux")
+	r.Rule("O20.6", "no lock taken by a registered metrics collector callback is held by the request path across the proving step")
 	r.Rule("O20.5", "the prover server sets no write deadline (WriteTimeout): a counted response must still be sendable however long the proof takes")
 	r.Rule("O20.4", "the handler sets exactly one status per request on every path (the counter records the last WriteHeader)")
 	r.Rule("O20.3", "instrumentation chain: InFlight(gauge) and Counter(counter vec {method, code}) around the handler, collectors registered on the served registry")
@@ -383,6 +384,8 @@ func checkC20(p *core.Program, r *core.Report) {
 					respEntryBind = he.Bind
 					checkResponsePaths(p, r, he.Fn, provingSystemType(p), modeConstants(p), "O20.4", "")
 					respEntryBind = nil
+					// O20.6: the metrics endpoint stays available while proofs are generated
+					checkMetricsNotBlockedByProving(p, r, he.Fn, provingSystemType(p))
 				}
 			}
 		}
